@@ -520,13 +520,17 @@ def _det_points(mod, twist, count, seed):
 @evaluator("bls.order-twist")
 def _():
     """#E'(F_p2) = h2 r.  A point Q of E'(F_p2) with (h2 r) Q = O, (h2 r / c) Q != O and (h2) Q != O has order divisible by c r,
-    for the 448-bit prime factor c of h2 (h2 = 13^2 23^2 2713 11953 262069 c; c passes Miller-Rabin to 40 bases, no certificate) and r prime;
+    for the 448-bit prime factor c of h2 (h2 = 13^2 23^2 2713 11953 262069 c; c and r prime by Pocklington certificate, certs/primes.json);
     c r > 4p + 2 >= width of the Hasse interval of F_p2, so #E' is the only multiple of ord(Q) in the interval: h2 r."""
     m = M("py_ecc.optimized_bls12_381.optimized_curve")
     small = 13 ** 2 * 23 ** 2 * 2713 * 11953 * 262069
     ok = H2_BLS % small == 0
     c = H2_BLS // small
     ok = ok and c.bit_length() == 448 and _strong_prp(c) and _strong_prp(R_BLS) and gcd(c, small * R_BLS) == 1
+    certs = _load_certs()
+    cc, cr = certs.get("bls_h2_c"), certs.get("bls_r")
+    ok = ok and cc is not None and int(cc["n"]) == c and _verify_pocklington(cc)
+    ok = ok and cr is not None and int(cr["n"]) == R_BLS and _verify_pocklington(cr)
     n = H2_BLS * R_BLS
     q2 = P_BLS ** 2
     ok = ok and abs(n - (q2 + 1)) <= 2 * P_BLS and c * R_BLS > 4 * P_BLS + 2
@@ -536,7 +540,7 @@ def _():
         if not m.is_inf(m.multiply(Q, n // c)) and not m.is_inf(m.multiply(Q, n // R_BLS)):
             found = True
             break
-    return ok and found, "E'(F_p2) has a point of order divisible by c*r > 4p+2 killed by h2*r, which lies in the Hasse interval: #E'(F_p2) = h2 r (c, r: strong probable primes to 40 bases)"
+    return ok and found, "E'(F_p2) has a point of order divisible by c*r > 4p+2 killed by h2*r, which lies in the Hasse interval: #E'(F_p2) = h2 r (c, r: primes by verified Pocklington certificates)"
 
 
 @evaluator("bls.struct-G1")
@@ -641,12 +645,17 @@ def _verify_pocklington(node, depth=0):
     return F * F > n and (n - 1) % F == 0
 
 
-@evaluator("primes.certificates")
-def _():
+def _load_certs():
     import json as _json
     path = os.path.join(os.path.dirname(os.path.dirname(os.path.abspath(__file__))), "certs", "primes.json")
-    certs = _json.load(open(path))
-    want = dict(secp_P=SECP_P, secp_N=SECP_N, bn_p=P_BN, bn_r=R_BN, bls_r=R_BLS, bls_p=P_BLS)
+    return _json.load(open(path))
+
+
+@evaluator("primes.certificates")
+def _():
+    certs = _load_certs()
+    want = dict(secp_P=SECP_P, secp_N=SECP_N, bn_p=P_BN, bn_r=R_BN, bls_r=R_BLS, bls_p=P_BLS,
+                bls_h2_c=H2_BLS // (13 ** 2 * 23 ** 2 * 2713 * 11953 * 262069))
     ok = True
     done = []
     for k, n in want.items():
